@@ -18,21 +18,28 @@ RE_ = "pandapipes.pf.result_extraction"
 IT = "pandapipes.pf.internals_toolbox"
 
 EXPLANATION = (
-    "(R6.1) every hook that builds or reads the internal tables (create_pit_node_entries, create_pit_branch_entries, "
-    "adaption_*, extract_results of all components) is summarised per concrete class by forward substitution; a user "
-    "label (a column of a user table, a table index, a label stored in a component array) may appear as a row index of "
-    "a pit array only inside an index-lookup application node_index[table][labels] / branch_index[table][labels]; the "
-    "two lookup builders fill -1 and then position+start at the labels. (R6.2) an order-kind inference over "
-    "extract_branch_results_with_internals assigns each array the order it is in (pit order of all branches, pit order "
-    "of the component, one-per-element table order, sorted-index order of _sum_by_group outputs, table rows obtained "
-    "through argsort of the index); indexing a pit-order array with sorted-order positions, indexing the un-sliced "
-    "branch array with component-relative positions, or storing sorted-order values at table-order rows is a "
-    "violation. (R6.3) _sum_by_group_numba falls back to the numpy implementation under its index bound and both "
-    "return (unique sorted indices, sums...). (R6.4) every read of net._lookups['internal_nodes'/'internal_branches'][t] "
-    "uses rows of the form branch_index[t][labels] - start(t). (R6.5) the outputs of np.where over a condition are parallel arrays in pair order: one output is never indexed by another output of the same call, and an output of an outer comparison is scattered by the positions of the other output, never stored over all rows. (R6.8, shared with C04 R4.8) the hooks that run on the reduced pit pair its rows only with arrays reduced by the same active "
-    "lookup, never with element-table rows. (R6.7, shared with C04 R4.9) internal valve nodes are keyed by the pair of both reference columns compared row-wise. "
-    "(R6.6) user labels (reference columns of element tables, table indices) never enter arithmetic anywhere in the package; they are compared, sorted, made unique or used as index of an index lookup. Decided: these three mechanisms; not decided: "
-    "permutation invariance of results as such.")
+    '(R6.1) every hook that builds or reads the internal tables (create_pit_node_entries, create_pit_branch_entries, '
+    'adaption_*, extract_results of all components) is summarised per concrete class by forward substitution; a user '
+    'label (a column of a user table, a table index, a label stored in a component array) may appear as a row index of a '
+    'pit array only inside an index-lookup application node_index[table][labels] / branch_index[table][labels]; the two '
+    'lookup builders fill -1 and then position+start at the labels. (R6.2) an order-kind inference over '
+    'extract_branch_results_with_internals assigns each array the order it is in (pit order of all branches, pit order of'
+    ' the component, one-per-element table order, sorted-index order of _sum_by_group outputs, table rows obtained '
+    'through argsort of the index); indexing a pit-order array with sorted-order positions, indexing the un-sliced branch'
+    ' array with component-relative positions, or storing sorted-order values at table-order rows is a violation. (R6.3) '
+    '_sum_by_group_numba falls back to the numpy implementation under its index bound and both return (unique sorted '
+    "indices, sums...). (R6.4) every read of net._lookups['internal_nodes'/'internal_branches'][t] uses rows of the form "
+    'branch_index[t][labels] - start(t). (R6.5) the outputs of np.where over a condition are parallel arrays in pair '
+    'order: one output is never indexed by another output of the same call, and an output of an outer comparison is '
+    'scattered by the positions of the other output, never stored over all rows. (R6.8, shared with C04 R4.8) the hooks '
+    'that run on the reduced pit pair its rows only with arrays reduced by the same active lookup, never with element-'
+    'table rows. (R6.7, shared with C04 R4.9) internal valve nodes are keyed by the pair of both reference columns '
+    'compared row-wise. (R6.6) user labels (reference columns of element tables, table indices) never enter arithmetic '
+    'anywhere in the package; they are compared, sorted, made unique or used as index of an index lookup. (R6.9, shared '
+    'with C05 R5.8) init_results_element rebinds the result table on every path to a fresh frame indexed by the element '
+    "table's index; a table kept from an earlier run is addressed by position afterwards and would attach results to the "
+    'labels of the previous row order. Decided: these three mechanisms; not decided: permutation invariance of results as'
+    ' such.')
 ASSUMPTIONS = ["numpy fancy indexing semantics", "the sections of one element occupy adjacent pit rows in table order "
                "(established by create_pit_branch_entries via np.repeat)"]
 TECHNIQUE = "label-taint on normal forms of per-class hook summaries; order-kind abstract interpretation; offset-domain check on lookup reads"
